@@ -100,6 +100,9 @@ def jobs(tier):
                         "n": 3,
                     }
                 )
+    out.append({"kind": "bytes", "batches": 2})
+    if not q:
+        out.append({"kind": "bytes", "batches": 3})
     return out
 
 
@@ -107,7 +110,104 @@ class World:
     pass
 
 
+def _bytes_scenario(job):
+    """Byte-level variant: what the consumer commits is derived from the offsets its decoder reports.  The log is encoded by
+    the reference encoder (plain messages and gzip wrappers of both formats, with the gaps compaction leaves), decoded by the
+    real KafkaCodec inside the fetch path, every message is processed, and every commit is compared with the *stored* offset
+    of the last message the processor completed (recovered from the message key)."""
+    from afkak.codec import gzip_encode
+    from afkak.kafkacodec import KafkaCodec
+
+    from vlib.ref import kafka_ref as ref
+
+    def run(ctx):
+        clock = Clock()
+        client = ContractClient(ctx, clock)
+        nb = job["batches"]
+        off = 100
+        batches = []
+        for b in range(nb):
+            kind = ctx.choose("batch_kind", 4)  # 0 plain v0, 1 plain v1, 2 gzip wrapper v0, 3 gzip wrapper v1
+            size = 1 if kind < 2 else 2 + ctx.choose("wrapper_size", 2)
+            msgs = []
+            for i in range(size):
+                off += 1 + ctx.choose("gap", 2)
+                msgs.append((off, b"k%d" % off, b"v%d" % off))
+            batches.append((kind, msgs))
+        log = [m for (_k, ms) in batches for m in ms]
+
+        def encode(batch):
+            kind, msgs = batch
+            if kind == 0:
+                return ref.encode_message_set([(o, ref.encode_message(0, 0, k, v)) for (o, k, v) in msgs])
+            if kind == 1:
+                return ref.encode_message_set([(o, ref.encode_message(1, 0, k, v, 1234)) for (o, k, v) in msgs])
+            if kind == 2:
+                inner = ref.encode_message_set([(o, ref.encode_message(0, 0, k, v)) for (o, k, v) in msgs])
+                return ref.encode_message_set([(msgs[-1][0], ref.encode_message(0, 1, None, gzip_encode(inner)))])
+            base = msgs[0][0] - ctx.choose("first_relative", 2)
+            inner = ref.encode_message_set([(o - base, ref.encode_message(1, 0, k, v, 99)) for (o, k, v) in msgs])
+            return ref.encode_message_set([(msgs[-1][0], ref.encode_message(1, 1, None, gzip_encode(inner), 77))])
+
+        done = []  # stored offsets of the messages the processor has completed, in order
+
+        def processor(consumer, block):
+            for sm in block:
+                done.append(int(sm.message.key[1:]))
+
+        commits = []
+
+        def on_request(kind, p):
+            if kind == "commit":
+                [req] = p.args["payloads"]
+                commits.append(req.offset)
+                last = done[-1] if done else None
+                ctx.check(last is not None and req.offset <= last, "commit-not-ahead-of-successful-processing",
+                          "commit of offset %r while the last message processed is stored at offset %r" % (req.offset, last))
+                ctx.check(req.offset == last, "commit-value-is-last-processed-at-issue", "commit of %r, last processed message is stored at %r" % (req.offset, last))
+
+        client.on_request = on_request
+        consumer = Consumer(client, TOPIC, PART, processor, consumer_group="g", auto_commit_every_n=1, auto_commit_every_ms=0)
+        ctx.sig("bytes batches=%d" % nb)
+        res = []
+        consumer.start(log[0][0]).addBoth(res.append)
+        for step in range(6 * nb + 6):
+            if res or not client.pending:
+                break
+            p = client.pending[0]
+            if p.kind == "commit":
+                client.resolve(p, [OffsetCommitResponse(TOPIC, PART, 0)])
+                continue
+            f = p.args["payloads"][0].offset
+            idx = 0
+            while idx < nb and batches[idx][1][-1][0] < f:
+                idx += 1
+            if idx >= nb:
+                break
+            cnt = 1 + ctx.choose("batches_returned", nb - idx)
+            data = b"".join(encode(b) for b in batches[idx : idx + cnt])
+            wire = ref.resp_fetch(5, 0, [(TOPIC.encode(), [(PART, 0, log[-1][0] + 1, data)])])
+            ctx.log("reply", idx, cnt)
+            try:
+                client.resolve(p, list(KafkaCodec.decode_fetch_response(wire, 0)))
+                fire_next_timer(clock)
+            except Exception as e:  # noqa
+                ctx.check(False, "well-formed-fetch-response-decodes", repr(e))
+                return
+        ctx.check(not res, "start-deferred-not-fired", repr(res))
+        ctx.check(bool(commits), "commits-issued", "no commit was issued")
+        # restart from the committed position: the first message re-delivered is the one stored right after it
+        if commits:
+            nxt = [o for (o, _k, _v) in log if o > commits[-1]]
+            ctx.check(commits[-1] in [o for (o, _k, _v) in log], "restart-resumes-after-committed", "committed offset %r is not the offset of a stored message; a restart would resume at %r" % (commits[-1], nxt[:1]))
+        ctx.log("end", commits)
+
+    return run
+
+
 def scenario(job):
+    if job.get("kind") == "bytes":
+        return _bytes_scenario(job)
     n, K = job["n"], job["K"]
 
     def run(ctx):
